@@ -17,7 +17,7 @@ func init() {
 		Run:       runC06,
 		Technique: "runtime conservation/locality checker over generated frame traces: exactly-once, concatenation, context-freedom and all-or-nothing of rtcp.Unmarshal",
 		Rule: "datagrams built as logged sequences of 1..40 reference-encoded frames (all 14 registered types, raw frames with arbitrary unregistered PT/FMT) plus the library's own Marshal output; " +
-			"then every split point between frames, a malformed but well-framed frame and a valid frame damaged until rejected alone (inner lengths/counts, dropped trailing words) inserted at a random position, the tail cut at offsets strictly inside a frame, 1..7 surplus octets that cannot form a packet, the empty datagram, frames with length fields 0x3FFE..0xFFFF, capacity independence of every own decoder (buf[:n] of a larger array vs an exact copy), agreement of CompoundPacket.Unmarshal with rtcp.Unmarshal; " +
+			"then every split point between frames, a malformed but well-framed frame and a valid frame damaged until rejected alone (inner lengths/counts, dropped trailing words) inserted at a random position, the tail cut at offsets strictly inside a frame, 1..7 surplus octets that cannot form a packet, the empty datagram, datagrams of 65535..131073 minimal frames (each carrying its index) with and without an unparseable tail, frames with length fields 0x3FFE..0xFFFF, capacity independence of every own decoder (buf[:n] of a larger array vs an exact copy), agreement of CompoundPacket.Unmarshal with rtcp.Unmarshal; " +
 			"non-trivial = a datagram of at least 2 frames or a fault-injected datagram; distinct by digest of the datagram octets",
 		Assumptions: []string{
 			"a malformed frame is one that is self-delimiting (length field = its size, or bad version) and that rtcp.Unmarshal rejects when given alone; cutting exactly at a frame boundary leaves a valid shorter datagram and is a concatenation case, not a truncation",
@@ -187,6 +187,22 @@ func c06MustFail(cs *core.Case, aspect string, in []byte, note string) {
 	cs.Check(err != nil && ps == nil, aspect, func() core.W {
 		return core.W{"input_hex": mon.Hex(in, 400), "error": errStr(err), "packets": vdump(ps), "note": note}
 	})
+}
+
+// c06ExpectReject is c06MustFail for inputs too large to print.
+func c06ExpectReject(cs *core.Case, aspect string, in []byte, d core.W) {
+	ps, err, pan := gUnmarshal(in)
+	cs.Eval(1)
+	cs.Count(aspect)
+	if pan != "" {
+		d["panic"] = pan
+		cs.Fail("panic/rtcp.Unmarshal", d)
+		return
+	}
+	if err == nil || ps != nil {
+		d["error"], d["packets_returned"] = errStr(err), len(ps)
+		cs.Fail(aspect, d)
+	}
 }
 
 func c06Datagram(cs *core.Case, fs []frame, source string) {
@@ -367,6 +383,62 @@ func runC06(c *core.Ctx) {
 	c.Once("empty", func(cs *core.Case) {
 		c06MustFail(cs, "all-or-nothing/empty", []byte{}, "empty datagram")
 		c06MustFail(cs, "all-or-nothing/empty", nil, "nil datagram")
+	})
+	// datagrams of tens of thousands of minimal frames (frame counts around and above 2^16); frame i
+	// is a BYE whose single source is i, so a lost, repeated or reordered frame is identifiable
+	manyN := []int{65535, 65536, 65537, 65538, 70001, 131073}
+	c.Section("many-frames", uint64(len(manyN))*c.N(3, 20), func(cs *core.Case) {
+		r := cs.R
+		n := manyN[cs.Idx%uint64(len(manyN))]
+		base := r.U32()
+		in := make([]byte, 0, 8*n+16)
+		for i := 0; i < n; i++ {
+			v := base + uint32(i)
+			in = append(in, 0x81, 203, 0, 1, byte(v>>24), byte(v>>16), byte(v>>8), byte(v))
+		}
+		det := func(extra core.W) core.W {
+			d := core.W{"frames": n, "frame_i": "81 cb 00 01 <base+i>", "base": base, "input_len": len(in)}
+			for k, v := range extra {
+				d[k] = v
+			}
+			return d
+		}
+		ps, err, pan := gUnmarshal(cloneBytes(in))
+		cs.Eval(1)
+		cs.Distinct(core.Digest([]byte("many"), in[:8], []byte{byte(n >> 16), byte(n >> 8), byte(n)}))
+		cs.Count("many-frames")
+		if pan != "" {
+			cs.Fail("panic/rtcp.Unmarshal", det(core.W{"panic": pan}))
+			return
+		}
+		if err != nil {
+			cs.Fail("exactly-once/rejected", det(core.W{"error": errStr(err)}))
+			return
+		}
+		if len(ps) != n {
+			cs.Fail("exactly-once/count", det(core.W{"packets": len(ps)}))
+			return
+		}
+		for i, p := range ps {
+			g, ok := p.(*rtcp.Goodbye)
+			if !ok || len(g.Sources) != 1 || g.Sources[0] != base+uint32(i) || g.Reason != "" {
+				cs.Fail("exactly-once/packet-differs", det(core.W{"index": i, "packet": vdump(p)}))
+				return
+			}
+		}
+		// a tail that cannot be a packet, after all of them
+		var tail []byte
+		switch r.Intn(3) {
+		case 0:
+			tail = surplus(r)
+		case 1:
+			tail = malformedFrame(r)
+		default:
+			tail = []byte{0x81, 206, 0, 2, 1, 2, 3, 4} // PLI cut after 8 of its 12 octets
+		}
+		if ps1, err1, pan1 := gUnmarshal(cloneBytes(tail)); pan1 == "" && err1 != nil && ps1 == nil {
+			c06ExpectReject(cs, "all-or-nothing/tail-after-many", append(cloneBytes(in), tail...), det(core.W{"tail_hex": mon.Hex(tail, 64)}))
+		}
 	})
 	// frames with the maximum length field 0xFFFF (262144 octets), alone and between neighbours
 	bigLens := []int{0x3FFE, 0x3FFF, 0x4000, 0x4001, 0x7FFF, 0x8000, 0xBFFF, 0xC000, 0xFFFE, 0xFFFF, 0xFFFF, 0xFFFF}
